@@ -8,6 +8,7 @@ package main
 // renter it is a lossy network or a misbehaving host.
 
 import (
+	"bytes"
 	"context"
 	"errors"
 	"net"
@@ -18,9 +19,13 @@ import (
 )
 
 type plan struct {
-	Cut            int    // 0: none; i in 1..4: message i is dropped and the stream is closed
-	DialFail       bool   // DialStream fails
-	Write1Fail     bool   // the stream is dead when the renter writes its request
+	Cut        int  // 0: none; i in 1..4: message i is dropped and the stream is closed
+	DialFail   bool // DialStream fails
+	Write1Fail bool // the stream is dead when the renter writes its request
+	// Trunc i: only the first half of the bytes of message i is forwarded, then the stream dies
+	Trunc int
+	// HoldContinue: like Hold, but the exchange goes on when it is released
+	HoldContinue   bool
 	Hold           bool   // park the exchange once the renter's signatures were read (the host waits with its inputs reserved) until released, then cut
 	T1, T2, T3, T4 string // rewriting of message i
 }
@@ -202,6 +207,10 @@ func (m *mitm) relay(cli net.Conn) {
 	if m.plan.Cut == 1 {
 		return
 	}
+	if m.plan.Trunc == 1 {
+		writeHalf(host, &wr.id, wr.req)
+		return
+	}
 	if m.plan.T1 != "" {
 		m.tamper(1, m.plan.T1, wr)
 	}
@@ -219,6 +228,10 @@ func (m *mitm) relay(cli net.Conn) {
 	if m.plan.Cut == 2 {
 		return
 	}
+	if m.plan.Trunc == 2 {
+		writeHalf(cli, nil, wr.r1)
+		return
+	}
 	if m.plan.T2 != "" {
 		m.tamper(2, m.plan.T2, wr)
 	}
@@ -232,12 +245,18 @@ func (m *mitm) relay(cli net.Conn) {
 	if err := proto4.ReadResponse(cli, wr.r2); err != nil {
 		return
 	}
-	if m.plan.Hold {
+	if m.plan.Hold || m.plan.HoldContinue {
 		close(m.reached)
 		<-m.release
-		return
+		if !m.plan.HoldContinue {
+			return
+		}
 	}
 	if m.plan.Cut == 3 {
+		return
+	}
+	if m.plan.Trunc == 3 {
+		writeHalf(host, nil, wr.r2)
 		return
 	}
 	if m.plan.T3 != "" {
@@ -260,6 +279,10 @@ func (m *mitm) relay(cli net.Conn) {
 	if m.plan.Cut == 4 {
 		return
 	}
+	if m.plan.Trunc == 4 {
+		writeHalf(cli, nil, wr.r3)
+		return
+	}
 	if m.plan.T4 != "" {
 		m.tamper(4, m.plan.T4, wr)
 	}
@@ -267,6 +290,18 @@ func (m *mitm) relay(cli net.Conn) {
 	m.dlvR3 = wr.r3
 	m.mu.Unlock()
 	proto4.WriteResponse(cli, wr.r3)
+}
+
+// writeHalf sends the first half of the encoding of a message (a request when id is set).
+func writeHalf(dst net.Conn, id *types.Specifier, o proto4.Object) {
+	var buf bytes.Buffer
+	if id != nil {
+		proto4.WriteRequest(&buf, *id, o)
+	} else {
+		proto4.WriteResponse(&buf, o)
+	}
+	b := buf.Bytes()
+	dst.Write(b[:len(b)/2])
 }
 
 // cloneObject copies a message through its wire encoding.
